@@ -98,5 +98,12 @@ Termination == <>(pc = "Done")
 ScanCorrect == pc = "Done" => /\ {found[k] : k \in 1..Len(found)} = OverlapPairs(frs)
                               /\ Len(found) = Cardinality(OverlapPairs(frs))
 ValidCut == cut <= Len(frs) /\ (cut = 0 \/ cut < Len(frs))   \* cut = 0: one scaffold; else scaffold 1 = first `cut` fragments
-Laws == LawSymmetric /\ LawTrichotomy /\ LawLen
+\* stretching every base to k bases keeps every relation (and multiplies lengths): why the conformance harness may run the same scenarios on
+\* coarser grids, where coordinates reach the sizes of real assemblies
+Stretch(x, k) == [x EXCEPT !.s = (x.s - 1) * k + 1, !.e = x.e * k]
+LawStretch == \A x, y \in Frags : \A k \in {2, 7, 1000} :
+                 /\ Shares(Stretch(x, k), Stretch(y, k)) = Shares(x, y)
+                 /\ OvLen(Stretch(x, k), Stretch(y, k)) = k * OvLen(x, y)
+                 /\ (x.name = y.name /\ ~Shares(x, y)) => Gap(Stretch(x, k), Stretch(y, k)) = k * Gap(x, y)
+Laws == LawSymmetric /\ LawTrichotomy /\ LawLen /\ LawStretch
 ====
